@@ -105,6 +105,12 @@ CHECKS['C16'] = dict(
     note='callbacks only where the statement allows them; no Discard, no meta',
     ref='6/C16')
 
+CHECKS['C11'] = dict(
+    technique='TLA+ model of Serialize/SerializeMemoizer over object graphs with sharing (round trip preserves the unfolding; TLC over all small DAGs) + trace validation by TLC of every call result of loaded, cached and stand-alone instances against the directly built instance, with fault-injected field coverage',
+    text='TLC proves for all DAGs of 3 (4) objects with memoised and inlined classes that deserialize(serialize(x)) has the unfolding of x; on random EBNF grammars, catalogue terminal sets (regex flags, bytes), hand-written grammars with imports, templates, priorities, several start symbols, global regex flags and >100 terminals, under seven option sets, four instances - direct, save->load, second cache= construction, module generated by python -m lark.tools.standalone - run parse, an interactive walk (tokens, accepts, result) and scan on accepted and rejected inputs and TLC compares every result (trees with token positions and meta, error class/position/expected sets) with the direct instance; one serialised field at a time is altered to measure which fields the run can observe.',
+    note='comparison through JSON renderings (the stand-alone module has its own classes); cache-key defects are C12\'s business',
+    ref='6/C11')
+
 NOT_APPLICABLE = []
 
 
